@@ -7,7 +7,8 @@
    (absolute tolerances against lengths); a NEW non-homogeneous comparison is not in the table and
    breaks `all_functions_ok`.  The table is TIGHT (`exclusions_tight`): an id that no longer fails must be
    removed, so a repaired site (triangle_Bfield `ind > 1e-12*l`, f10bc6f; mask_inside_enclosing_box relative
-   eps, ac0d0ea) is proved from then on and re-introducing an absolute tolerance there breaks the proof. *)
+   eps, ac0d0ea; the orientation seed test and the self-intersection test, which now run on a
+   unit-size copy of the mesh, e19e649 / c030c9e) is proved from then on and re-introducing an absolute tolerance there breaks the proof. *)
 From Coq Require Import Reals ZArith String List Bool Lia Lra.
 From MV Require Import Lib.Dim Gen.GenTol.
 Import ListNotations.
@@ -45,10 +46,6 @@ Definition failing : list string := flat_map failing_fn functions.
    computed behind such a decision, or the un-modelled cylinder-segment core; each one points to a
    finding of known_findings/C12.json or to the `not modelled` list of harness/props/C12.meta.json *)
 Definition exclusions : list string := [
-  (* is_facet_inwards: check point = centroid + unit normal * 1e-5 *)
-  "trimesh_facet_inwards>is_facet_inwards>mask_inside_trimesh(np.array([check_point]), faces)>arg:points.0";
-  "trimesh_facet_inwards>is_facet_inwards>mask_inside_trimesh(np.array([check_point]), faces)>arg:points.1";
-  "trimesh_facet_inwards>is_facet_inwards>mask_inside_trimesh(np.array([check_point]), faces)>arg:points.2";
   (* mask_inside_trimesh: ray start = min(vertices) - (12.0012345, 5.9923456, 6.9932109) *)
   "trimesh_inside>mask_inside_trimesh>lines_end_in_trimesh(test_lines, faces)>arg:lines.0";
   "trimesh_inside>mask_inside_trimesh>lines_end_in_trimesh(test_lines, faces)>arg:lines.1";
@@ -62,9 +59,6 @@ Definition exclusions : list string := [
   "trimesh_lines_end>lines_end_in_trimesh>np.abs(area1) < eps";
   "trimesh_lines_end>lines_end_in_trimesh>np.abs(area2) < eps";
   "trimesh_lines_end>lines_end_in_trimesh>np.abs(area3) < eps";
-  (* segments_intersect_facets: distance to the facet plane > 1e-6 *)
-  "trimesh_selfintersect>segments_intersect_facets>np.abs(g1) > eps";
-  "trimesh_selfintersect>segments_intersect_facets>np.abs(g2) > eps";
   (* cylinder segment: close() = isclose(rtol=1e-12, atol=1e-12) on lengths, +-1e-14 margins on lengths *)
   "cylinder_segment>BHJM_cylinder_segment>r1 - 1e-14 < r";
   "cylinder_segment>BHJM_cylinder_segment>r < r2 + 1e-14";
